@@ -23,7 +23,7 @@ pub enum Cls {
     Ranges(bool, Vec<(u8, u8)>),
 }
 #[derive(Clone, Copy, Debug, PartialEq)]
-pub enum Asrt { Start, End, WordB, NotWordB }
+pub enum Asrt { Start, End, WordB, NotWordB, WordStart, WordEnd }
 #[derive(Clone, Debug, PartialEq)]
 pub enum Re {
     Lit(Vec<u8>),
@@ -66,7 +66,8 @@ fn coq_re(r: &Re) -> String {
         Re::Alt(v) => format!("(ralt {})", coq_list(v, coq_re)),
         Re::Rep(x, mn, mx, g) => format!("(RRep {} {} {} {})", coq_re(x), coq_nat(*mn),
             match mx { Some(m) => format!("(Some {})", coq_nat(*m)), None => "None".into() }, coq_bool(*g)),
-        Re::Assert(a) => format!("(RAssert {})", match a { Asrt::Start => "AStart", Asrt::End => "AEnd", Asrt::WordB => "AWordB", Asrt::NotWordB => "ANotWordB" }),
+        Re::Assert(a) => format!("(RAssert {})", match a { Asrt::Start => "AStart", Asrt::End => "AEnd", Asrt::WordB => "AWordB", Asrt::NotWordB => "ANotWordB",
+                                                                 Asrt::WordStart => "AWordStart", Asrt::WordEnd => "AWordEnd" }),
     }
 }
 fn coq_alpha(a: &Option<Option<Vec<u8>>>) -> String {
@@ -180,7 +181,8 @@ fn yara_re(r: &Re, dotall: bool) -> String {
             };
             format!("{}{}{}", atom, q, if *g { "" } else { "?" })
         }
-        Re::Assert(a) => match a { Asrt::Start => "^".into(), Asrt::End => "$".into(), Asrt::WordB => "\\b".into(), Asrt::NotWordB => "\\B".into() },
+        Re::Assert(a) => match a { Asrt::Start => "^".into(), Asrt::End => "$".into(), Asrt::WordB => "\\b".into(), Asrt::NotWordB => "\\B".into(),
+                                    Asrt::WordStart => "\\b{start}".into(), Asrt::WordEnd => "\\b{end}".into() },
     }
 }
 fn yara_pat(p: &Pat) -> String {
@@ -294,7 +296,6 @@ fn tags(p: &Pat) -> Vec<&'static str> {
         Pat::Hex(r) => (r, false, true),
         Pat::Regexp(r, m) => (r, m.nocase || m.slash_i, m.dotall),
     };
-    let _ = dotall;
     if is_masked_literal(p) && matches!(p, Pat::Regexp(_, m) if m.fullword) { t.push("fullword-on-masked-literal"); }
     fn is_dot(r: &Re) -> bool { matches!(r, Re::Cls(Cls::Any)) || matches!(r, Re::Cls(Cls::Ranges(true, rs)) if rs.len() == 1 && rs[0] == (10, 10)) }
     fn seq(r: &Re) -> Vec<&Re> { match r { Re::Cat(v) => v.iter().flat_map(|x| seq(x)).collect(), x => vec![x] } }
@@ -343,6 +344,26 @@ fn tags(p: &Pat) -> Vec<&'static str> {
         && items[1..items.len() - 1].iter().any(|x| matches!(x, Re::Rep(y, mn, mx, _) if matches!(**y, Re::Cls(Cls::Any)) && mx.map_or(true, |m| m - mn > 200))) {
         t.push("wide-regexp-split-at-large-gap");
     }
+    // known findings of round 5 (candidate repairs in /verif/fixes):
+    // (a) FastVM, backward JumpExactNoNewline looks at the wrong bytes: a regexp without /s that has .{n}
+    fn has_exact_dot(r: &Re) -> bool { match r {
+        Re::Rep(x, mn, Some(mx), _) if mn == mx && *mn >= 1 && is_dot(x) && !matches!(**x, Re::Cls(Cls::Any)) => true,
+        Re::Rep(x, ..) => has_exact_dot(x), Re::Cat(v) | Re::Alt(v) => v.iter().any(has_exact_dot), _ => false } }
+    if matches!(p, Pat::Regexp(..)) && !dotall && has_exact_dot(r) { t.push("exact-dot-repetition-without-s"); }
+    // (b) PikeVM, \b{end} evaluated backwards at the start of the data
+    fn has_word_end(r: &Re) -> bool { match r {
+        Re::Assert(Asrt::WordEnd) => true, Re::Rep(x, ..) => has_word_end(x), Re::Cat(v) | Re::Alt(v) => v.iter().any(has_word_end), _ => false } }
+    if has_word_end(r) { t.push("word-end-assertion"); }
+    // (c) jump bounds above 65535 truncated to 16 bits by the FastVM compiler
+    fn has_huge_jump(r: &Re) -> bool { match r {
+        Re::Rep(x, mn, mx, _) => (is_dot(x) && (*mn > 65535 || mx.map_or(false, |m| m > 65535))) || has_huge_jump(x),
+        Re::Cat(v) | Re::Alt(v) => v.iter().any(has_huge_jump), _ => false } }
+    if has_huge_jump(r) { t.push("jump-bound-over-65535"); }
+    // (e) FastVM, an alternation with an EMPTY alternative is skipped when no input is left on that side
+    fn has_empty_alt(r: &Re) -> bool { match r {
+        Re::Alt(v) => v.iter().any(|x| matches!(x, Re::Lit(l) if l.is_empty())) || v.iter().any(has_empty_alt),
+        Re::Rep(x, ..) => has_empty_alt(x), Re::Cat(v) => v.iter().any(has_empty_alt), _ => false } }
+    if has_empty_alt(r) { t.push("empty-alternative"); }
     fn any_unsound_class(r: &Re, nc: bool) -> bool {
         match r {
             Re::Cls(c @ Cls::Ranges(..)) => matches!(class_to_masked_byte(&cls_set(c, nc)), Some((_, _, false))),
@@ -499,7 +520,7 @@ fn gen_re_atom(rng: &mut Rng, depth: usize, dotall: bool, greedy: bool, in_rep: 
 /// matcher's cost is the product of the nested iteration counts; see the report: known weakness)
 fn gen_re_seq(rng: &mut Rng, depth: usize, n: usize, dotall: bool, greedy: bool, top: bool, asserts: bool, in_rep: bool) -> Re {
     let mut v = vec![];
-    if top && asserts && rng.chance(1, 6) { v.push(Re::Assert(if rng.chance(1, 2) { Asrt::Start } else { Asrt::WordB })); }
+    if top && asserts && rng.chance(1, 6) { v.push(Re::Assert(match rng.below(5) { 0 | 1 => Asrt::Start, 2 | 3 => Asrt::WordB, _ => Asrt::WordStart })); }
     for i in 0..n {
         let quantified = (i > 0 || !top) && rng.chance(1, 3);
         let a = gen_re_atom(rng, depth, dotall, greedy, in_rep || quantified);
@@ -510,9 +531,9 @@ fn gen_re_seq(rng: &mut Rng, depth: usize, n: usize, dotall: bool, greedy: bool,
             let mx = if in_rep && mx.is_none() { Some(mn + 2) } else { mx };
             v.push(Re::Rep(Box::new(a), mn, mx, greedy));
         } else { v.push(a); }
-        if asserts && i + 1 < n && rng.chance(1, 10) { v.push(Re::Assert(if rng.chance(1, 2) { Asrt::WordB } else { Asrt::NotWordB })); }
+        if asserts && i + 1 < n && rng.chance(1, 10) { v.push(Re::Assert(match rng.below(6) { 0 | 1 => Asrt::WordB, 2 | 3 => Asrt::NotWordB, 4 => Asrt::WordStart, _ => Asrt::WordEnd })); }
     }
-    if top && asserts && rng.chance(1, 6) { v.push(Re::Assert(match rng.below(3) { 0 => Asrt::End, 1 => Asrt::WordB, _ => Asrt::NotWordB })); }
+    if top && asserts && rng.chance(1, 6) { v.push(Re::Assert(match rng.below(4) { 0 => Asrt::End, 1 => Asrt::WordB, 2 => Asrt::NotWordB, _ => Asrt::WordEnd })); }
     if v.len() == 1 { v.pop().unwrap() } else { Re::Cat(v) }
 }
 pub fn gen_regexp(rng: &mut Rng) -> Pat {
@@ -522,8 +543,8 @@ pub fn gen_regexp(rng: &mut Rng) -> Pat {
     match rng.below(6) { 0 => m.wide = true, 1 => { m.wide = true; m.ascii = true; } 2 => m.ascii = true, _ => {} }
     m.fullword = rng.chance(1, 5);
     let greedy = rng.chance(1, 2);
-    // the documentation does not say how ^ $ \b \B read a `wide` string: no assertions there
-    let asserts = !m.wide;
+    // assertions also in `wide` regexps: the neighbours are the characters (Sem.v nb_prev / nb_next)
+    let asserts = true;
     let n = 1 + rng.below(4) as usize;
     let mut r = gen_re_seq(rng, 2, n, m.dotall, greedy, true, asserts, false);
     // a mandatory literal somewhere so that the regexp cannot match the empty string
@@ -955,6 +976,19 @@ fn corpus() -> Vec<(Pat, Vec<u8>, Option<usize>)> {
         // trailing padding; and the legitimate trailing padding next to it
         (Pat::Text(b"foob".to_vec(), tm(&|m| { m.b64wide = Some(None); })), widen(b"..Zm9v=YgA.."), None),
         (Pat::Text(b"foob".to_vec(), tm(&|m| { m.b64wide = Some(None); })), widen(b"..Zm9=vYgA..Zm9vYg=="), None),
+        // known findings of round 5
+        // (a) /foo.{3}bar/ : FastVM backward JumpExactNoNewline takes the bytes from the wrong end of its window
+        (Pat::Regexp(Re::Cat(vec![lit(b"foo"), Re::Rep(Box::new(Re::Cls(Cls::Ranges(true, vec![(10, 10)]))), 3, Some(3), true), lit(b"bar")]), rm(&|_| {})), b"foo\n\n\nbar".to_vec(), None),
+        (Pat::Regexp(Re::Cat(vec![lit(b"foo"), Re::Rep(Box::new(Re::Cls(Cls::Ranges(true, vec![(10, 10)]))), 3, Some(3), true), lit(b"bar")]), rm(&|_| {})), b"\n\n\nfooxyzbar".to_vec(), None),
+        // (b) /\b{end}abcd/ : PikeVM WordEnd going backwards at the start of the data
+        (Pat::Regexp(Re::Cat(vec![Re::Assert(Asrt::WordEnd), lit(b"abcd")]), rm(&|_| {})), b"abcd".to_vec(), None),
+        // (c) jump bounds above 65535 are truncated to 16 bits by the FastVM compiler
+        (Pat::Hex(Re::Cat(vec![lit(&[1]), Re::Rep(Box::new(any()), 0, Some(65537), false), lit(&[2, 3, 4, 5])])), b"\x01xxxxxxxxx\x02\x03\x04\x05".to_vec(), None),
+        // ({ 01 [65537-65540] 02 03 04 05 } matching a gap of 1 is the same defect; its lower bound is too costly for the reference matcher)
+        (Pat::Regexp(Re::Cat(vec![lit(b"a"), Re::Rep(Box::new(any()), 0, Some(65537), true), lit(b"bcde")]), rm(&|m| { m.dotall = true; })), b"a123bcde".to_vec(), None),
+        // (e) an empty alternative at the edge of the data
+        (Pat::Regexp(Re::Cat(vec![Re::Alt(vec![lit(b""), lit(b"3818")]), lit(b"aeb")]), rm(&|_| {})), b"aeb".to_vec(), None),
+        (Pat::Regexp(Re::Cat(vec![lit(b"aeb"), Re::Alt(vec![lit(b""), lit(b"3818")])]), rm(&|_| {})), b"..aeb".to_vec(), None),
         // xor + fullword (differences.md)
         (Pat::Text(b"mississippi".to_vec(), tm(&|m| { m.xor = Some((1, 1)); m.xor_explicit = true; m.fullword = true; })), b"{lhrrhrrhqqh} !lhrrhrrhqqh!".to_vec(), None),
     ]
@@ -1188,6 +1222,183 @@ fn directed_perturb(rng: &mut Rng, round: usize) -> (Pat, Vec<Vec<u8>>, &'static
         if !buf.is_empty() { bufs.push(buf); }
     }
     (p, bufs, name)
+}
+
+
+// ------------------------------------------------------------------ stream (c5): assertions next to the atom
+/// a regexp with a look-around assertion (^ $ \b \B \b{start} \b{end}) directly before, directly
+/// after or inside the literal run that becomes the atom, an element that keeps it out of the
+/// FastVM, x {ascii, wide, ascii wide, nocase, fullword, nocase wide}; buffers with the instance at
+/// offset 0, at the very end, and with word / non-word / underscore neighbours on both sides
+fn directed_assert(rng: &mut Rng, round: usize) -> (Pat, Vec<Vec<u8>>, &'static str) {
+    let greedy = rng.chance(1, 2);
+    let lit4 = |rng: &mut Rng| -> Vec<u8> { let mut v: Vec<u8> = vec![]; while v.len() < 4 { let b = *rng.pick(b"abcdefgh12345678"); if !v.contains(&b) { v.push(b); } } v };
+    let front = |rng: &mut Rng| match rng.below(7) { 0 => None, 1 => Some(Asrt::Start), 2 | 3 => Some(Asrt::WordB), 4 => Some(Asrt::NotWordB), 5 => Some(Asrt::WordStart), _ => Some(Asrt::WordEnd) };
+    let back = |rng: &mut Rng| match rng.below(7) { 0 => None, 1 => Some(Asrt::End), 2 | 3 => Some(Asrt::WordB), 4 => Some(Asrt::NotWordB), 5 => Some(Asrt::WordEnd), _ => Some(Asrt::WordStart) };
+    let mid = |rng: &mut Rng| match rng.below(5) { 0 | 1 => Some(Asrt::WordB), 2 => Some(Asrt::NotWordB), 3 => Some(Asrt::WordStart), _ => Some(Asrt::WordEnd) };
+    let soft = |rng: &mut Rng| match rng.below(4) {
+        0 => Re::Rep(Box::new(Re::Cls(Cls::Ranges(false, vec![(b'a', b'z')]))), 1, None, greedy),
+        1 => Re::Rep(Box::new(Re::Cls(Cls::Ranges(false, word_ranges()))), 1, Some(3), greedy),
+        2 => Re::Rep(Box::new(Re::Cls(Cls::Ranges(false, vec![(b'0', b'9')]))), 0, None, greedy),
+        _ => Re::Rep(Box::new(Re::Cls(Cls::Ranges(true, word_ranges()))), 0, Some(2), greedy),
+    };
+    let mut v: Vec<Re> = vec![];
+    let push_a = |v: &mut Vec<Re>, a: Option<Asrt>| if let Some(a) = a { v.push(Re::Assert(a)); };
+    let layout = round % 4;
+    match layout {
+        0 => { push_a(&mut v, front(rng)); v.push(Re::Lit(lit4(rng))); if rng.chance(1, 2) { push_a(&mut v, mid(rng)); } v.push(soft(rng)); if rng.chance(1, 2) { push_a(&mut v, back(rng)); } }
+        1 => { if rng.chance(1, 2) { push_a(&mut v, front(rng)); } v.push(soft(rng)); push_a(&mut v, mid(rng)); v.push(Re::Lit(lit4(rng))); push_a(&mut v, back(rng)); }
+        2 => { push_a(&mut v, front(rng)); let l = lit4(rng); v.push(Re::Lit(l[..2].to_vec())); push_a(&mut v, mid(rng)); v.push(Re::Lit(l[2..].to_vec())); v.push(soft(rng)); push_a(&mut v, back(rng)); }
+        _ => { push_a(&mut v, front(rng)); v.push(Re::Lit(lit4(rng))); v.push(soft(rng)); push_a(&mut v, mid(rng)); v.push(Re::Lit(lit4(rng)[..2].to_vec())); push_a(&mut v, back(rng)); }
+    }
+    let mut m = RMods::default();
+    let name = match (round / 4) % 6 {
+        0 => "ascii", 1 => { m.wide = true; "wide" } 2 => { m.wide = true; m.ascii = true; "ascii_wide" }
+        3 => { m.nocase = true; "nocase" } 4 => { m.fullword = true; "fullword" } _ => { m.nocase = true; m.wide = true; "nocase_wide" }
+    };
+    let re = Re::Cat(v);
+    let p = Pat::Regexp(re.clone(), m.clone());
+    let nb: &[&[u8]] = &[b"", b"-", b"a", b"_", b"0", b".", b"Z"];
+    let mut bufs = vec![];
+    for b in 0..2 {
+        let wide_buf = if m.wide && m.ascii { b == 0 } else { m.wide };
+        let mut buf: Vec<u8> = vec![];
+        let k = 4 + rng.below(3) as usize;
+        for i in 0..k {
+            let mut inst = vec![]; instance(&re, m.nocase, rng, &mut inst);
+            let l: &[u8] = if i == 0 { b"" } else { *rng.pick(nb) };
+            let r: &[u8] = if i + 1 == k { b"" } else { *rng.pick(nb) };
+            let mut piece: Vec<u8> = l.to_vec(); piece.extend_from_slice(&inst); piece.extend_from_slice(r);
+            if i + 1 < k { piece.push(*rng.pick(b" \n.")); }
+            if wide_buf { piece = widen(&piece); if rng.chance(1, 8) { piece.insert(0, *rng.pick(b"a-")); } }
+            buf.extend_from_slice(&piece);
+        }
+        // the data may end right after the last character of a wide string
+        if wide_buf && rng.chance(1, 3) { buf.pop(); }
+        bufs.push(buf);
+    }
+    (p, bufs, name)
+}
+
+// ------------------------------------------------------------------ stream (c6): consecutive jumps
+/// a hex pattern with 2-3 CONSECUTIVE jumps of every kind ([n], [a-b], [a-], [-]) between two
+/// literals, and buffers with gaps just below / at / above every bound of the coalesced jump
+/// (lower bound = the sum of the lower bounds; upper bound = the sum of the upper bounds if ALL the
+/// jumps have one, none otherwise)
+fn directed_consecutive_jumps(rng: &mut Rng) -> (Pat, Vec<Vec<u8>>, &'static str) {
+    let l1: Vec<u8> = (0..2 + rng.below(2)).map(|_| *rng.pick(b"\x01\x02\x03AB")).collect();
+    let l2: Vec<u8> = (0..2 + rng.below(2)).map(|_| *rng.pick(b"\x04\x05\x06CD")).collect();
+    let nj = 2 + rng.below(2) as usize;
+    let mut jumps: Vec<(usize, Option<usize>)> = vec![];
+    for _ in 0..nj {
+        jumps.push(match rng.below(5) {
+            0 => { let n = rng.below(4) as usize; (n, Some(n)) }
+            1 | 2 => { let a = rng.below(3) as usize; (a, Some(a + rng.below(4) as usize)) }
+            3 => (rng.below(4) as usize, None),
+            _ => (0, None),
+        });
+    }
+    let all_bounded = jumps.iter().all(|j| j.1.is_some());
+    let any_bounded = jumps.iter().any(|j| j.1.is_some());
+    let name = if all_bounded { "all_bounded" } else if any_bounded { "mixed" } else { "all_unbounded" };
+    let lo: usize = jumps.iter().map(|j| j.0).sum();
+    let finite: usize = jumps.iter().map(|j| j.1.unwrap_or(j.0)).sum();
+    let mut items: Vec<Re> = l1.iter().map(|b| Re::Cls(Cls::Byte(*b))).collect();
+    for (a, b) in &jumps { items.push(Re::Rep(Box::new(Re::Cls(Cls::Any)), *a, *b, false)); }
+    items.extend(l2.iter().map(|b| Re::Cls(Cls::Byte(*b))));
+    let p = Pat::Hex(Re::Cat(items));
+    let mut gaps: Vec<usize> = vec![lo, lo + 1, finite, finite + 1, finite + 2, finite + 6, finite + 11];
+    if lo > 0 { gaps.push(lo - 1); }
+    if finite > 0 { gaps.push(finite - 1); }
+    for j in &jumps { if let Some(h) = j.1 { gaps.push(h); gaps.push(h + 1); gaps.push(lo - j.0 + h + 1); } }
+    gaps.sort(); gaps.dedup();
+    for i in (1..gaps.len()).rev() { let j = rng.below(i as u64 + 1) as usize; gaps.swap(i, j); }
+    let mut bufs = vec![];
+    for chunk in gaps.chunks(6) {
+        let mut buf = vec![];
+        for g in chunk {
+            buf.extend_from_slice(&l1); for _ in 0..*g { buf.push(*rng.pick(b"xy")); } buf.extend_from_slice(&l2);
+            for _ in 0..rng.below(3) { buf.push(b'.'); }
+        }
+        bufs.push(buf);
+        if bufs.len() == 2 { break; }
+    }
+    (p, bufs, name)
+}
+
+// ------------------------------------------------------------------ stream (g): the atoms of regexp sub-patterns
+/// regexps whose best literal sits in an alternation next to an alternative that can match the
+/// empty string (or is very short), optional groups, x* / x? prefixes -- the shapes where an atom
+/// set can fail to cover an alternative
+fn gen_nullable_alt(rng: &mut Rng) -> Pat {
+    let greedy = rng.chance(1, 2);
+    let strong = |rng: &mut Rng, n: usize| -> Re { Re::Lit((0..n).map(|_| *rng.pick(b"12345678abcd")).collect()) };
+    let weak = |rng: &mut Rng| -> Re { match rng.below(6) {
+        0 => Re::Rep(Box::new(Re::Lit(vec![*rng.pick(b"xyz")])), 0, None, greedy),
+        1 => Re::Rep(Box::new(Re::Lit(vec![*rng.pick(b"xyz")])), 0, Some(1), greedy),
+        2 => Re::Rep(Box::new(Re::Lit(vec![b'x', b'y'])), 0, Some(1), greedy),
+        3 => Re::Lit(vec![*rng.pick(b"xyz")]),
+        4 => Re::Rep(Box::new(Re::Cls(Cls::Ranges(false, vec![(b'0', b'9')]))), 0, Some(2), greedy),
+        _ => Re::Lit(vec![]),
+    } };
+    let outside = |rng: &mut Rng| -> Re { let n = 1 + rng.below(3) as usize; Re::Lit((0..n).map(|_| *rng.pick(b"abef")).collect()) };
+    let mut v: Vec<Re> = vec![];
+    match rng.below(5) {
+        0 | 1 => { // (strong|weak) outside   /  outside (weak|strong)
+            let sl = 3 + rng.below(2) as usize;
+            let mut alts = vec![strong(rng, sl), weak(rng)];
+            if rng.chance(1, 3) { alts.push(strong(rng, 2)); }
+            if rng.chance(1, 2) { alts.swap(0, 1); }
+            if rng.chance(1, 2) { v.push(Re::Alt(alts)); v.push(outside(rng)); } else { v.push(outside(rng)); v.push(Re::Alt(alts)); v.push(outside(rng)); }
+        }
+        2 => { // (strong)? outside
+            v.push(Re::Rep(Box::new(strong(rng, 4)), 0, Some(1), greedy)); v.push(outside(rng));
+            if rng.chance(1, 2) { v.push(Re::Rep(Box::new(strong(rng, 3)), 0, Some(1), greedy)); }
+        }
+        3 => { // x* strong? outside
+            v.push(weak(rng)); v.push(outside(rng)); v.push(Re::Alt(vec![strong(rng, 4), weak(rng)]));
+        }
+        _ => { // nested: ((strong|weak) x | y) outside
+            let inner = Re::Alt(vec![strong(rng, 4), weak(rng)]);
+            v.push(Re::Alt(vec![Re::Cat(vec![inner, Re::Lit(vec![b'x'])]), Re::Lit(vec![b'y'])])); v.push(outside(rng));
+        }
+    }
+    // empty literals are not printable: drop them from concatenations, keep them as empty alternatives
+    fn clean(r: Re) -> Re { match r {
+        Re::Cat(v) => Re::Cat(v.into_iter().map(clean).filter(|x| !matches!(x, Re::Lit(l) if l.is_empty())).collect()),
+        Re::Alt(v) => Re::Alt(v.into_iter().map(clean).collect()),
+        Re::Rep(x, a, b, g) => Re::Rep(Box::new(clean(*x)), a, b, g),
+        x => x } }
+    let mut m = RMods::default();
+    match rng.below(8) { 0 => m.nocase = true, 1 => m.wide = true, 2 => { m.wide = true; m.ascii = true; } _ => {} }
+    Pat::Regexp(clean(Re::Cat(v)), m)
+}
+
+fn atoms_case(p: &Pat, data: &[u8], idx: usize, stats: &mut Stats) -> Option<(String, String, String)> {
+    let cond = idx % CONDS.len();
+    let src = rule_source(p, cond, 0);
+    let out = match scan(&src, data, None) { Ok(o) => o, Err(e) => { stats.inc("atoms_rejected_by_compiler");
+        if std::env::var("C01_SHOW_REJECTED").is_ok() { eprintln!("c01: stream g pattern rejected: {e}\n{src}"); } return None; } };
+    let (sps, atoms, _) = out.dump.as_ref()?;
+    let mine: Vec<usize> = sps.iter().enumerate().filter(|(_, sp)| sp.pattern_id == 0).map(|(i, _)| i).collect();
+    let all_regexp = !mine.is_empty() && mine.iter().all(|i| sps[*i].kind == "Regexp");
+    if !all_regexp || out.panic.is_some() || out.bytes_wrong.is_some() {
+        stats.inc("atoms_not_a_plain_regexp");
+        let (case, replay, _) = scan_case(p, data, cond, 0, None, idx).ok()?;
+        return Some((case, replay, String::new()));
+    }
+    let my_atoms: Vec<String> = atoms.iter().filter(|a| mine.contains(&a.sub_pattern_id))
+        .map(|a| format!("mkAtom {} {} {} {}", coq_nat(a.sub_pattern_id), coq_list(&a.bytes, |b| b.to_string()), coq_nat(a.backtrack), coq_bool(a.exact))).collect();
+    stats.inc("atoms_cases"); stats.add("atoms_atoms", my_atoms.len() as u64);
+    stats.inc(match out.matches.len() { 0 => "atoms_matches_0", 1 => "atoms_matches_1", _ => "atoms_matches_2+" });
+    let atoms_s = format!("[{}]", my_atoms.join("; "));
+    let case = format!("AtomsCase {} {} {} {}", coq_pat(p), atoms_s, coq_list(data, |b| b.to_string()),
+        coq_list(&out.matches, |(s, l, k)| format!("({},{},{})", s, l, coq_key(k))));
+    let replay = format!("{{\"stream\":\"scan\",\"sub_stream\":\"atoms\",\"index\":{},\"shape\":{},\"tags\":{},\"data_len\":{},\"source\":{},\"data_hex\":\"{}\",\"max_matches_per_pattern\":null,\"reported\":{},\"panic\":null,\"atoms\":{}}}",
+        idx, json_str(&shape(p)), serde_json::to_string(&tags(p)).unwrap(), data.len(), json_str(&src), hex(data),
+        json_str(&format!("{:?}", out.matches)), json_str(&atoms_s));
+    let key = if out.matches.is_empty() { String::new() } else { format!("g|{}|{}", yara_pat(p), hex(data)) };
+    Some((case, replay, key))
 }
 
 // ------------------------------------------------------------------ stream (e): chains
@@ -1561,15 +1772,21 @@ pub fn run(args: &[String]) -> i32 {
                     Err(e) => { eprintln!("c01: directed pattern rejected: {e}\n{}", rule_source(p, cond, noise)); false }
                 }
             };
-            match round % 6 {
-                0 => { let (p, d) = directed_jump_mask(&mut rng, (round / 6) % 2 == 0);
-                       if !push(&p, &d, 0, if (round / 6) % 2 == 0 { "directed_jump_mask_fwd" } else { "directed_jump_mask_bck" }, &mut stats, &mut shards, &mut distinct) { return 2; } }
-                2 | 4 => { let (p, bufs, fam) = directed_perturb(&mut rng, round / 3);
+            match round % 8 {
+                0 => { let (p, d) = directed_jump_mask(&mut rng, (round / 8) % 2 == 0);
+                       if !push(&p, &d, 0, if (round / 8) % 2 == 0 { "directed_jump_mask_fwd" } else { "directed_jump_mask_bck" }, &mut stats, &mut shards, &mut distinct) { return 2; } }
+                2 | 4 => { let (p, bufs, fam) = directed_perturb(&mut rng, round / 4);
                        for d in bufs { if !push(&p, &d, 0, "directed_one_bit_perturbations", &mut stats, &mut shards, &mut distinct) { return 2; } }
                        stats.inc(&format!("perturb_{}", fam)); }
-                1 => { let len = MASKED_LITERAL_LENGTHS[(round / 6) % MASKED_LITERAL_LENGTHS.len()];
+                1 => { let len = MASKED_LITERAL_LENGTHS[(round / 8) % MASKED_LITERAL_LENGTHS.len()];
                        let (p, bufs) = directed_masked_literal(&mut rng, len);
                        for d in bufs { if !push(&p, &d, 0, "directed_masked_literal", &mut stats, &mut shards, &mut distinct) { return 2; } } }
+                6 => { let (p, bufs, fam) = directed_assert(&mut rng, round / 8);
+                       for d in bufs { if !push(&p, &d, 0, "directed_assertion_next_to_atom", &mut stats, &mut shards, &mut distinct) { return 2; } }
+                       stats.inc(&format!("assert_{}", fam)); }
+                7 => { let (p, bufs, fam) = directed_consecutive_jumps(&mut rng);
+                       for d in bufs { if !push(&p, &d, 0, "directed_consecutive_jumps", &mut stats, &mut shards, &mut distinct) { return 2; } }
+                       stats.inc(&format!("consecutive_jumps_{}", fam)); }
                 _ => { let (p, d, noise) = directed_teddy(&mut rng);
                        let tag = match noise + 1 { 1..=32 => "directed_kernel_le_32_atoms", 33..=64 => "directed_kernel_33_64_atoms", _ => "directed_kernel_over_64_atoms" };
                        if !push(&p, &d, noise, tag, &mut stats, &mut shards, &mut distinct) { return 2; } }
@@ -1614,6 +1831,22 @@ pub fn run(args: &[String]) -> i32 {
             for (case, replay, key) in multi_cases(&mut rng, idx, &mut stats) {
                 if !key.is_empty() { distinct.insert(key); }
                 shards.push(case, replay);
+            }
+        }
+    }
+    if only.is_none() || only.as_deref() == Some("g") {
+        // stream (g): about 8% of the cases
+        let budget = if only.is_some() { n } else { shards.total + n * 8 / 100 };
+        let mut tries = 0;
+        while shards.total < budget.min(n) && tries < 20 * n {
+            tries += 1; idx += 1;
+            let p = match rng.below(10) { 0..=5 => gen_nullable_alt(&mut rng), 6 | 7 => gen_regexp(&mut rng), _ => gen_hex(&mut rng) };
+            for _ in 0..(1 + rng.below(2)) {
+                let data = gen_buffer(&p, &mut rng, 48);
+                if let Some((case, replay, key)) = atoms_case(&p, &data, idx, &mut stats) {
+                    if !key.is_empty() { distinct.insert(key); }
+                    shards.push(case, replay);
+                }
             }
         }
     }
